@@ -24,7 +24,7 @@ ASSUMPTIONS = [
     "a call the plain function accepts but the wrapper rejects is C06's clause: counted, not judged here",
 ]
 SHARDS = {"quick": 12, "thorough": 14}
-FLOORS = {"quick": {"calls_compared": 8000, "twin_pairs_called": 300, "multi_process_histories": 40, "shelved_calls": 1000},
+FLOORS = {"quick": {"calls_compared": 6000, "twin_pairs_called": 300, "multi_process_histories": 40, "shelved_calls": 1000},
           "thorough": {"calls_compared": 80000, "twin_pairs_called": 6000, "multi_process_histories": 300, "shelved_calls": 10000}}
 
 
